@@ -193,6 +193,13 @@ def step'' (s : St) (line : String) : St × String :=
     | some s' => (s', "-")
     | none => (s, "bad-op")
   | ["xstate"] => (s, dump s.blk)
+  | "xrelres" :: cd :: optws =>
+    match cd.toInt?, optws.mapM parseROpt with
+    | some cd, some opts =>
+      match (s.blk.release cd s.now opts).2 with
+      | .err _ => (s, "err")
+      | .ok skipped _ => (s, "ok " ++ joinWith "," ((sortNat skipped).map toString))
+    | _, _ => (s, "bad-op")
   | w :: rest =>
     if w.startsWith "c" then (s, "client")
     else if w.startsWith "x" then
